@@ -21,6 +21,10 @@ def gen(rng):
     legs = [tgen.rleg(rng, cfg, sym, maxD=4) for _ in range(r)]
     n = tgen.allowed_charge(rng, cfg, sym, legs)
     a = yastn.rand(cfg, legs=legs, n=n, dtype=rng.choice(['float64', 'complex128']))
+    if rng.random() < 0.25 and len(a.slices) > 0:       # blocks that are stored but hold exact zeros (also sectors of dimension one)
+        for sl in a.slices:
+            if rng.random() < 0.4:
+                a._data[slice(*sl.slcs[0])] = 0
     style = rng.choice(['plain', 'plain', 'lazy', 'fused', 'meta'])
     if style == 'lazy':
         a, _ = tgen.lazy(rng, a, p=1.0)
@@ -65,7 +69,7 @@ def check_svd(ctx, rng, a, sym, cfg, style, axes, model_jobs, model_src):
     rec = yastn.tensordot(yastn.tensordot(Um, S, axes=(-1 % Um.ndim, 0)), Vm, axes=(Um.ndim - 1, 0))
     ref = a.transpose(axes[0] + axes[1])
     scale = max(1.0, float(a.norm()))
-    if (rec - ref).norm() > TOL * scale:
+    if not (rec - ref).norm() <= TOL * scale or not all(np.all(np.isfinite(x._data)) for x in (U, S, V)):
         ctx.violation('svd: U S V differs from the input by %.3g' % float((rec - ref).norm()), desc)
     UU = yastn.tensordot(Um.conj(), Um, axes=(tuple(range(nl)), tuple(range(nl))))
     VV = yastn.tensordot(Vm, Vm.conj(), axes=(tuple(range(1, nr + 1)), tuple(range(1, nr + 1))))
@@ -124,7 +128,7 @@ def check_qr(ctx, rng, a, sym, cfg, style, axes):
     Qm = Q.moveaxis(qa, -1); Rm = R.moveaxis(ra, 0)
     rec = yastn.tensordot(Qm, Rm, axes=(Qm.ndim - 1, 0))
     ref = a.transpose(axes[0] + axes[1])
-    if (rec - ref).norm() > TOL * max(1.0, float(a.norm())):
+    if not (rec - ref).norm() <= TOL * max(1.0, float(a.norm())):
         ctx.violation('qr: Q R differs from the input by %.3g' % float((rec - ref).norm()), desc)
     QQ = yastn.tensordot(Qm.conj(), Qm, axes=(tuple(range(nl)), tuple(range(nl))))
     if QQ.size:
@@ -283,6 +287,39 @@ def check_eigh(ctx, rng, sym, cfg):
         ctx.violation('eig (%s): factors are unusable: %s: %s' % (style, type(e).__name__, str(e)[:150]), desc)
 
 
+def check_eig_charged(ctx, rng):
+    """eig of an operator with NON-ZERO charge (cyclic groups; all sectors of one size so that the effective blocks are square), nU in {True, False}:
+    the charge sits on the requested factor, U S V reproduces the input"""
+    import yastn, tgen
+    sym = rng.choice(['Z2', 'Z3'])
+    cfg = tgen.make_cfg(sym)
+    mod = 2 if sym == 'Z2' else 3
+    nl = rng.randint(1, 2)
+    Dl = [rng.randint(1, 2) for _ in range(nl)]
+    legs = [yastn.Leg(cfg, s=rng.choice([1, -1]), t=tuple(range(mod)), D=(Dl[i],) * mod) for i in range(nl)]
+    n = rng.randint(1, mod - 1)
+    a = yastn.rand(cfg, legs=legs + [l.conj() for l in legs], n=n, dtype=rng.choice(['float64', 'complex128']))
+    sU = rng.choice([1, -1]); nU = rng.random() < 0.5
+    rows, cols = tuple(range(nl)), tuple(range(nl, 2 * nl))
+    desc = dict(kind='eig-charged', sym=sym, n=n, nU=nU, sU=sU, nl=nl, D=Dl)
+    ctx.case(desc, nontrivial=True)
+    ctx.count('eig:charged:nU=%s' % nU)
+    try:
+        U, S, V = yastn.eig(a, axes=(rows, cols), sU=sU, nU=nU)
+    except (yastn.YastnError, ValueError) as e:
+        ctx.count('eig:charged:rejected')
+        return
+    zero = tuple(cfg.sym.zero())
+    if (tuple(U.n), tuple(V.n), tuple(S.n)) != ((tuple(a.n), zero, zero) if nU else (zero, tuple(a.n), zero)):
+        ctx.violation('eig(nU=%s) of an operator of charge %r: U.n=%r S.n=%r V.n=%r -- the charge is not on the requested factor' % (nU, tuple(a.n), tuple(U.n), tuple(S.n), tuple(V.n)), desc)
+        return
+    rec = yastn.tensordot(yastn.tensordot(U, S, axes=(nl, 0)), V, axes=(nl, 0))
+    if not (rec - a).norm() <= 1e-8 * max(1.0, float(a.norm())):
+        ctx.violation('eig(nU=%s) of an operator of charge %r: U S V differs from the input by %.3g' % (nU, tuple(a.n), float((rec - a).norm())), desc)
+    if U.get_legs(nl).s != sU or V.get_legs(0).s != -sU:
+        ctx.violation('eig (charged): connecting leg signature', desc)
+
+
 def run(ctx):
     st = vlib.prepare(ctx, PROP_V)
     quick = ctx.tier == 'quick'
@@ -303,6 +340,8 @@ def run(ctx):
             check_qr(ctx, rng, a, sym, cfg, style, axes)
             if k % 3 == 0:
                 check_eigh(ctx, rng, sym, cfg)
+            if k % 5 == 0:
+                check_eig_charged(ctx, rng)
         except yastn.YastnError as e:
             ctx.violation('factorisation rejected a well-formed input: %s' % str(e)[:200], dict(kind='rejected', sym=sym, style=style, axes=axes, rep=k))
         ctx.count('style:' + style)
